@@ -48,6 +48,19 @@ func streamReplay(cfg *Config, res *Result) error {
 			return err
 		}
 		res.addDisagreements(ds)
+		if os.Getenv("VH_VERBOSE") != "" {
+			out, _ := runDriver(cfg.Driver, b.in)
+			for i := range b.in {
+				mark := "  "
+				if i < len(out) && out[i] != b.impl[i] {
+					mark = "!!"
+				}
+				fmt.Printf("%s %s\n     in   : %.300s\n     impl : %.600s\n", mark, b.tag[i], b.in[i], b.impl[i])
+				if mark == "!!" {
+					fmt.Printf("     model: %.600s\n", out[i])
+				}
+			}
+		}
 	}
 	for _, v := range res.Violations {
 		fmt.Printf("REPRODUCED property=%s: %s\n", v.Property, v.What)
